@@ -1,5 +1,5 @@
 From RsdnsModel Require Import Base Cursor Names Labels Header Tracker RData Reader.
-From RsdnsModel.Spec Require Import LinearPass.
+From RsdnsModel.Spec Require Import WireName LinearPass.
 From RsdnsModel.Proofs Require Import Latch ReaderTotal LatchFull TrackerRefine SpecExec ParseSpec ReaderRefine.
 From RsdnsModel.Properties Require Import C09.
 Open Scope N_scope.
@@ -93,6 +93,42 @@ Check (C09_unparsable_record_fails : forall msg nq an ns ar qs rs e1 e2, parsed 
     let mk := mkMarker e2 (a_type_off it) (a_type it) (a_class it) (a_ttl it) (a_rdlen it) (section_of (lin nq an ns ar) (idx - nq)) in
     exists r1 r2 e, rd_marker msg r = (r1, Ok (OMarker mk)) /\ rd_skip_data mk r1 = (r2, Err e) /\ r_done r2 = true
   end).
+Check (C09_question_flavours : forall msg nq an ns ar qs rs e1 e2, parsed msg nq an ns ar qs rs e1 e2 ->
+  forall single as_ref r idx hw it,
+  RState msg nq an ns ar qs rs e2 r idx hw -> getN qs idx = Some it ->
+  (single = true -> idx + 1 = nq) -> (as_ref = false -> a_fits255 it = true) ->
+  exists r' o, rd_question msg single as_ref r = (r', Ok o) /\ RState msg nq an ns ar qs rs e2 r' (idx + 1) (idx + 1) /\
+    if as_ref then o = OQuestionRef (r_cur r) (a_type it) (a_class it)
+    else exists ls e, spec_name msg (a_start it) = SAccept ls e /\ o = OQuestion (join_labels (map snd ls)) (a_type it) (a_class it)).
+Check (C09_owned_question_too_long : forall msg nq an ns ar qs rs e1 e2, parsed msg nq an ns ar qs rs e1 e2 ->
+  forall single r idx hw it,
+  RState msg nq an ns ar qs rs e2 r idx hw -> getN qs idx = Some it ->
+  (single = true -> idx + 1 = nq) -> a_fits255 it = false ->
+  exists r' e, rd_question msg single false r = (r', Err e) /\ r_done r' = true).
+Check (C09_record_header_flavours : forall msg nq an ns ar qs rs e1 e2, parsed msg nq an ns ar qs rs e1 e2 ->
+  forall r idx hw it,
+  RState msg nq an ns ar qs rs e2 r idx hw -> nq <= idx -> getN rs (idx - nq) = Some it ->
+  let mk := mk_of nq an ns ar qs rs e2 idx it in
+  (exists r1, rd_marker msg r = (r1, Ok (OMarker mk)) /\ RMid msg nq an ns ar qs rs e2 r1 idx hw it) /\
+  (exists r1, rd_header_ref msg r = (r1, Ok (OHeaderRef (r_cur r) mk)) /\ RMid msg nq an ns ar qs rs e2 r1 idx hw it) /\
+  (forall nk, a_fits255 it = true ->
+     exists r1 ls e, spec_name msg (a_start it) = SAccept ls e /\
+       rd_header_n msg nk r = (r1, Ok (OHeaderN (join_labels (map snd ls)) mk)) /\ RMid msg nq an ns ar qs rs e2 r1 idx hw it) /\
+  (forall nk, a_fits255 it = false -> exists r1 e, rd_header_n msg nk r = (r1, Err e) /\ r_done r1 = true)).
+Check (C09_record_data_flavours : forall msg nq an ns ar qs rs e1 e2, parsed msg nq an ns ar qs rs e1 e2 ->
+  forall r1 idx hw it, RMid msg nq an ns ar qs rs e2 r1 idx hw it ->
+  let mk := mk_of nq an ns ar qs rs e2 idx it in
+  (exists r2, rd_skip_data mk r1 = (r2, Ok OUnit) /\ RState msg nq an ns ar qs rs e2 r2 (idx + 1) (N.max hw (idx + 1))) /\
+  (exists r2, rd_data_bytes msg mk r1 = (r2, Ok (OBytes (a_type_off it + 10) (subN msg (a_type_off it + 10) (a_rdlen it)))) /\
+              RState msg nq an ns ar qs rs e2 r2 (idx + 1) (N.max hw (idx + 1))) /\
+  (a_type it = T_OPT ->
+   exists r2, rd_opt mk r1 = (r2, Ok (OOpt (opt_from_msg (a_class it) (a_ttl it)))) /\
+              RState msg nq an ns ar qs rs e2 r2 (idx + 1) (N.max hw (idx + 1))) /\
+  (forall ty r2 x, read_rdata msg ty (a_rdlen it) <> None -> rd_data msg ty mk r1 = (r2, x) ->
+     match x with
+     | Ok o => (exists d, o = ORData d) /\ RState msg nq an ns ar qs rs e2 r2 (idx + 1) (N.max hw (idx + 1))
+     | _ => r_done r2 = true
+     end)).
 Check (C09_seek_by_skipping : forall msg nq an ns ar qs rs e1 e2, parsed msg nq an ns ar qs rs e1 e2 ->
   forall r hw s, RState msg nq an ns ar qs rs e2 r 0 hw -> s < 3 ->
   known (lin nq an ns ar) (mkA 0 hw false None) s = false ->
@@ -112,4 +148,4 @@ Check (C09_linear_pass_parses : forall msg l, linear_of msg = Some l ->
     (lenN (l_qs l) < l_nq l -> question_at msg e2 = None) /\
     (lenN (l_qs l) = l_nq l -> lenN rs < nrec l ->
      match record_at msg e2 with Some it => a_data_ok it = false | None => True end)).
-Print Assumptions C09_stays_exhausted. Print Assumptions C09_error_latches. Print Assumptions C09_tracker_refines. Print Assumptions C09_tracker_init. Print Assumptions C09_counts. Print Assumptions C09_seek. Print Assumptions C09_record_section. Print Assumptions C09_tracker_example. Print Assumptions C09_question_parse_is_spec. Print Assumptions C09_record_parse_is_spec. Print Assumptions C09_reader_refines. Print Assumptions C09_complete_is_within. Print Assumptions C09_unparsable_question_fails. Print Assumptions C09_unparsable_record_fails. Print Assumptions C09_seek_by_skipping. Print Assumptions C09_seek_refused. Print Assumptions C09_reader_start. Print Assumptions C09_linear_pass_parses.
+Print Assumptions C09_stays_exhausted. Print Assumptions C09_error_latches. Print Assumptions C09_tracker_refines. Print Assumptions C09_tracker_init. Print Assumptions C09_counts. Print Assumptions C09_seek. Print Assumptions C09_record_section. Print Assumptions C09_tracker_example. Print Assumptions C09_question_parse_is_spec. Print Assumptions C09_record_parse_is_spec. Print Assumptions C09_reader_refines. Print Assumptions C09_complete_is_within. Print Assumptions C09_unparsable_question_fails. Print Assumptions C09_unparsable_record_fails. Print Assumptions C09_question_flavours. Print Assumptions C09_owned_question_too_long. Print Assumptions C09_record_header_flavours. Print Assumptions C09_record_data_flavours. Print Assumptions C09_seek_by_skipping. Print Assumptions C09_seek_refused. Print Assumptions C09_reader_start. Print Assumptions C09_linear_pass_parses.
